@@ -267,6 +267,10 @@ def variants(rng, b, pl, ref, n):
         v.update(mode=mode, via=via, started=started, tv=tv)
         if mode == "forcancel":
             v["z"] = rng.choice([0.0, 1e-3, 0.05])
+        elif mode in ("anyfor", "for") and D < T - 1e-6 and "decoy" not in pl and b["kind"] in ("comm", "mess") and rng.random() < 0.5:
+            # after the timeout, a second timed wait (on an exec that cannot complete) across the natural completion date of the
+            # first activity: an expired timed wait that left a registration behind would answer it when that activity completes
+            v["zs"] = (T - D) + rng.choice([0.25, 1.0]) * max(T - c, 0.01)
         if b["kind"] in ("exec", "io") and "bg" not in b and mode in ("forcancel", "for"):
             v["probe"] = 1
         out.append(v)
@@ -393,6 +397,14 @@ def judge(ctx, ref, spec, run, w):
                 return vio("ok-without-completion", "the timed receive returned normally but its buffer holds '%s'" % (rb[0]["payload"] if rb else None))
 
     # ---- after a timeout without cancel: still alive, completes at its natural date
+    slept = first(run, "waiter", "slept")
+    if slept is not None:
+        s0, s1, sd = float(slept["from"]), float(slept["clock"]), float(slept["d"])
+        if slept["out"] != "timeout" or abs(s1 - (s0 + sd)) > eps + ulps(s0, s1):
+            return vio("later-timed-wait-answered-early", "after the timeout, wait_for(%r) on an exec that cannot complete, called at %r, "
+                       "returned '%s' at %r with the exec %s (the first activity completes at %r): the expired timed wait answered "
+                       "a later one" % (sd, s0, slept["out"], s1, slept.get("exstate"), T))
+        ctx.count("checked.second-timed-wait-across-completion-after-timeout")
     again = first(run, "waiter", "again")
     if not cancelled and again is not None:
         if again["out"] != "ok" or again["state"] != "FINISHED":
@@ -401,7 +413,7 @@ def judge(ctx, ref, spec, run, w):
         slack = eps + (2.0 / min(spec["rbw"], spec["wbw"]) if kind == "io" else 0.0)
         if out == "timeout" and T2 < D - eps:
             return vio("disturbed", "timeout at %r, yet the activity then completed at %r, before the deadline" % (rc, T2))
-        if abs(T2 - max(T, rc)) > slack:
+        if abs(T2 - max(T, rc, float(slept["clock"]) if slept is not None else rc)) > slack:
             return vio("disturbed", "after the timed call the activity completed at %r instead of its natural date %r (off by %.3g)" % (T2, T, T2 - T))
         ctx.count("checked.completes-at-natural-date-after-timeout")
     if not cancelled and kind in ("comm", "mess") and ndel != 1:
@@ -534,6 +546,8 @@ def directed_variants(b, pl, ref):
                 v["z"] = 1e-3
             if b["kind"] in ("exec", "io") and mode in ("for", "forcancel"):
                 v["probe"] = 1
+            if b["kind"] in ("comm", "mess") and mode in ("for", "anyfor") and off == -1e-3:
+                v["zs"] = 1e-3 + 0.25 * max(T - c, 0.01)     # second timed wait across the completion date after the timeout
             if v not in vs:
                 vs.append(v)
     return vs
